@@ -96,7 +96,9 @@ def parse_validate(txt):
         d["suite_stable_passed"], d["suite_stable_not_passed"] = int(m.group(1)), int(m.group(2))
     m = re.search(r"recheck: (\d+) not-passed stable tests re-run on their own with the change applied: (\d+) passed, (\d+) still failing", txt)
     if m:
-        d["recheck"] = {"rerun": int(m.group(1)), "passed": int(m.group(2)), "still_failing": int(m.group(3))}
+        d["recheck"] = {"rerun": int(m.group(1)), "passed": int(m.group(2)), "still_failing": int(m.group(3)),
+                        "still_failing_also_fail_on_clean_tree_at_the_same_time": len(re.findall(r"control on the CLEAN tree at the same time: fails as well", txt)),
+                        "still_failing_but_pass_on_clean_tree": len(re.findall(r"control on the CLEAN tree at the same time: passed", txt))}
     m = re.search(r"repo_head=(\w+)", txt)
     if m:
         d["validated_on_repo_head"] = m.group(1)
@@ -203,6 +205,9 @@ def do_table():
         rc = c.get("recheck")
         if rc:
             suite += "; %d re-run alone: %d pass" % (rc["rerun"], rc["passed"])
+            if rc.get("still_failing"):
+                suite += ", %d fail also on the clean tree then, %d only with the change" % (
+                    rc.get("still_failing_also_fail_on_clean_tree_at_the_same_time", 0), rc.get("still_failing_but_pass_on_clean_tree", 0))
         chk = m.get("checks_against_repo", {})
         caught = ", ".join(chk.get("caught_by", [])) or "-"
         missed = [k for k, v in (chk.get("results") or {}).items() if v["exit"] != 1]
